@@ -82,7 +82,7 @@ def events_for_trace(ctl, kind, file_ids=None, counters=True):
             out.append({'a': lab, 'k': e['counter']})
         elif lab == 'commit' and kind == 'snapshot':
             out.append({'a': 'commit', 'chunks': e['chunks']})
-        elif lab in ('write', 'utime') and kind == 'restore':
+        elif lab in ('write.begin', 'write', 'utime') and kind == 'restore':
             f = file_ids.get(e['path'])
             if f:
                 out.append({'a': lab, 'f': f})
@@ -333,6 +333,16 @@ def main(run):
     caught.append('abortUnseenWhenFull')
     tlc.check_design('RestorePipe', 'mut.cfg', cfg_text=rp.replace('TestInsideLock = TRUE', 'TestInsideLock = FALSE'), expect_violation='NoSpuriousError')
     caught.append('testOutsideLock')
+    # the per-file write locks of restore (one action per critical section); the release split over two critical sections must fail both ways
+    fl = open(os.path.join(tlc.SPEC_DIR, 'MC_FileLocks.cfg')).read()
+    res = tlc.check_design('FileLocks', 'MC_FileLocks.cfg')
+    states += res.distinct
+    trans += res.generated
+    only = lambda inv: '\n'.join(l for l in fl.replace('Mutant = "none"', 'Mutant = "splitRelease"').splitlines()      # noqa: E731
+                                 if not l.startswith(('INVARIANT', 'PROPERTY'))) + '\nINVARIANT %s\n' % inv
+    tlc.check_design('FileLocks', 'mut1.cfg', cfg_text=only('NoKeyError'), expect_violation='NoKeyError')
+    tlc.check_design('FileLocks', 'mut2.cfg', cfg_text=only('WritersExclusive'), expect_violation='WritersExclusive')
+    caught.append('splitRelease')
     run.add(states=states, transitions=trans, spec_mutants_caught=caught)
     traces = []
     # L2: adversarial schedule = TLC's counterexample shape: every loader of a file removes, then all test, then all pop
